@@ -43,7 +43,7 @@ func TestSim(t *testing.T) {
 
 func run(r *core.R) {
 	r.FaultDecl("conflict", "error_before", "commit_then_error", "k8s_api_error", "clock_jump", "informer_stall", "feed_stall",
-		"feed_reorder_across_keys", "feed_coalesced", "feed_duplicate", "cni_del_lost")
+		"feed_reorder_across_keys", "feed_coalesced", "feed_duplicate", "feed_resync", "cni_del_lost")
 	r.ProbeDecl("gc_release_ips_call", "gc_released_allocation", "gc_release_block_affinity_call", "gc_release_host_affinities_call",
 		"gc_cold_ip_gc_call", "gc_live_pod_lookup", "gc_release_names_no_current_allocation", "gc_block_release_is_noop", "gc_host_release_is_noop",
 		"release_after_grace", "release_immediate_node_gone", "release_tunnel_address", "tunnel_address_allocated",
@@ -75,18 +75,19 @@ func run(r *core.R) {
 	w.pFeedReorder = src.Intn(300, "p_feed_reorder")
 	w.pFeedDup = src.Intn(100, "p_feed_dup")
 	w.pFeedCoalesce = src.Intn(400, "p_feed_coalesce")
+	w.pFeedResync = src.Intn(40, "p_feed_resync")
 	w.pDelLost = 150 + src.Intn(350, "p_del_lost")
 	w.allowPodCreateLag = src.Chance(500, "pod_create_lag")
 	switch src.Intn(5, "fault_profile") {
 	case 0: // no datastore/API faults, prompt feeds: only genuine concurrency and lost CNI DELs
 		w.pKlErr, w.pKlConflict, w.pGcErr, w.pGcConflict, w.pGcCommitErr, w.pAPIErr = 0, 0, 0, 0, 0, 0
-		w.pInfStall, w.pFeedStall, w.pFeedReorder, w.pFeedDup, w.pFeedCoalesce, w.pJump = 0, 0, 0, 0, 0, 0
+		w.pInfStall, w.pFeedStall, w.pFeedReorder, w.pFeedDup, w.pFeedCoalesce, w.pJump, w.pFeedResync = 0, 0, 0, 0, 0, 0, 0
 	case 1: // stale views only
 		w.pKlErr, w.pKlConflict, w.pGcErr, w.pGcConflict, w.pGcCommitErr, w.pAPIErr = 0, 0, 0, 0, 0, 0
 	}
 	for k, v := range map[string]int{"p_kl_err": w.pKlErr, "p_kl_conflict": w.pKlConflict, "p_gc_err": w.pGcErr, "p_gc_conflict": w.pGcConflict,
 		"p_gc_commit_err": w.pGcCommitErr, "p_api_err": w.pAPIErr, "p_jump": w.pJump, "p_inf_stall": w.pInfStall, "p_feed_stall": w.pFeedStall,
-		"p_feed_reorder": w.pFeedReorder, "p_feed_dup": w.pFeedDup, "p_feed_coalesce": w.pFeedCoalesce, "p_del_lost": w.pDelLost} {
+		"p_feed_resync": w.pFeedResync, "p_feed_reorder": w.pFeedReorder, "p_feed_dup": w.pFeedDup, "p_feed_coalesce": w.pFeedCoalesce, "p_del_lost": w.pDelLost} {
 		r.Cfg(k, v)
 	}
 	r.Cfg("pod_create_lag", w.allowPodCreateLag)
